@@ -1,0 +1,166 @@
+// Verification hooks. Compiled only with `--cfg vm_memory_verif`; never part of a normal build.
+//! Instrumentation used by the external verification harness.
+#![allow(missing_docs, missing_debug_implementations, clippy::undocumented_unsafe_blocks)]
+
+use std::cell::RefCell;
+use std::sync::atomic::Ordering;
+use std::sync::Mutex;
+
+/// One primitive memory access performed by `copy_slice_impl`.
+#[derive(Clone, Copy, Debug, PartialEq, Eq)]
+pub enum Access {
+    /// `copy_single`: one volatile read + one volatile write of `width` bytes.
+    Single { width: usize, src: usize, dst: usize },
+    /// the `copy_nonoverlapping` branch of `copy_slice`.
+    Bulk { src: usize, dst: usize, total: usize },
+}
+
+thread_local! {
+    static TRACE: RefCell<Option<Vec<Access>>> = const { RefCell::new(None) };
+}
+
+/// Start recording the primitive accesses of the current thread.
+pub fn start_trace() {
+    TRACE.with(|t| *t.borrow_mut() = Some(Vec::new()));
+}
+
+/// Stop recording and return what was recorded.
+pub fn take_trace() -> Vec<Access> {
+    TRACE.with(|t| t.borrow_mut().take().unwrap_or_default())
+}
+
+pub(crate) fn access(width: usize, src: *const u8, dst: *mut u8) {
+    TRACE.with(|t| {
+        if let Some(v) = t.borrow_mut().as_mut() {
+            v.push(Access::Single { width, src: src as usize, dst: dst as usize });
+        }
+    });
+}
+
+pub(crate) fn bulk(src: *const u8, dst: *mut u8, total: usize) {
+    TRACE.with(|t| {
+        if let Some(v) = t.borrow_mut().as_mut() {
+            v.push(Access::Bulk { src: src as usize, dst: dst as usize, total });
+        }
+    });
+}
+
+/// Kind of an atomic primitive executed by the bitmap backend.
+#[derive(Clone, Copy, Debug, PartialEq, Eq)]
+pub enum AtomicKind {
+    Load,
+    Store,
+    FetchOr,
+    FetchAnd,
+}
+
+/// One atomic primitive: which cell (address), operand, and the value it returned / replaced.
+#[derive(Clone, Copy, Debug, PartialEq, Eq)]
+pub struct AtomicEvent {
+    pub kind: AtomicKind,
+    pub cell: usize,
+    pub operand: u64,
+    pub old: u64,
+}
+
+type YieldHook = Box<dyn Fn(AtomicKind, usize, u64) + Send + Sync>;
+type LogHook = Box<dyn Fn(AtomicEvent) + Send + Sync>;
+static BEFORE_ATOMIC: Mutex<Option<YieldHook>> = Mutex::new(None);
+static AFTER_ATOMIC: Mutex<Option<LogHook>> = Mutex::new(None);
+
+/// Install (or clear) the callbacks run before and after every atomic primitive of the shim.
+/// The "before" callback is the scheduler yield point; the "after" callback logs the event.
+pub fn set_atomic_hooks(before: Option<YieldHook>, after: Option<LogHook>) {
+    *BEFORE_ATOMIC.lock().unwrap() = before;
+    *AFTER_ATOMIC.lock().unwrap() = after;
+}
+
+fn before(kind: AtomicKind, cell: usize, operand: u64) {
+    let g = BEFORE_ATOMIC.lock().unwrap();
+    if let Some(f) = g.as_ref() {
+        let f: *const YieldHook = f;
+        drop(g);
+        // SAFETY: hooks are only replaced by the harness while no bitmap operation is running.
+        unsafe { (*f)(kind, cell, operand) }
+    }
+}
+
+fn after(ev: AtomicEvent) {
+    let g = AFTER_ATOMIC.lock().unwrap();
+    if let Some(f) = g.as_ref() {
+        f(ev)
+    }
+}
+
+/// Drop-in replacement for `std::sync::atomic::AtomicU64` (the subset the bitmap uses) that
+/// delegates every operation to the real atomic and reports it to the installed hooks.
+#[derive(Debug, Default)]
+pub struct AtomicU64(std::sync::atomic::AtomicU64);
+
+impl AtomicU64 {
+    pub fn new(v: u64) -> Self {
+        AtomicU64(std::sync::atomic::AtomicU64::new(v))
+    }
+    fn cell(&self) -> usize {
+        self as *const Self as usize
+    }
+    pub fn load(&self, order: Ordering) -> u64 {
+        before(AtomicKind::Load, self.cell(), 0);
+        let old = self.0.load(order);
+        after(AtomicEvent { kind: AtomicKind::Load, cell: self.cell(), operand: 0, old });
+        old
+    }
+    pub fn store(&self, val: u64, order: Ordering) {
+        before(AtomicKind::Store, self.cell(), val);
+        // swap instead of store so that the replaced value can be reported; same effect
+        let old = self.0.swap(val, order_for_swap(order));
+        after(AtomicEvent { kind: AtomicKind::Store, cell: self.cell(), operand: val, old });
+    }
+    pub fn fetch_or(&self, val: u64, order: Ordering) -> u64 {
+        before(AtomicKind::FetchOr, self.cell(), val);
+        let old = self.0.fetch_or(val, order);
+        after(AtomicEvent { kind: AtomicKind::FetchOr, cell: self.cell(), operand: val, old });
+        old
+    }
+    pub fn fetch_and(&self, val: u64, order: Ordering) -> u64 {
+        before(AtomicKind::FetchAnd, self.cell(), val);
+        let old = self.0.fetch_and(val, order);
+        after(AtomicEvent { kind: AtomicKind::FetchAnd, cell: self.cell(), operand: val, old });
+        old
+    }
+}
+
+fn order_for_swap(order: Ordering) -> Ordering {
+    order
+}
+
+/// Signature of the emulated Xen ioctl: (fd, request, argument pointer, argument size) -> ret.
+pub type XenIoctl = Box<dyn Fn(i32, u64, *mut u8, usize) -> i32 + Send + Sync>;
+static XEN_IOCTL: Mutex<Option<XenIoctl>> = Mutex::new(None);
+
+/// Install (or clear) the emulation of the Xen privcmd/gntdev ioctls.
+pub fn set_xen_ioctl(f: Option<XenIoctl>) {
+    *XEN_IOCTL.lock().unwrap() = f;
+}
+
+/// Replacement for `vmm_sys_util::ioctl::ioctl_with_ref` in the Xen backend.
+///
+/// # Safety
+/// Same contract as the real call.
+#[cfg(feature = "xen")]
+pub unsafe fn ioctl_with_ref<F: std::os::unix::io::AsRawFd, T>(
+    fd: &F,
+    req: std::os::raw::c_ulong,
+    arg: &T,
+) -> std::os::raw::c_int {
+    let g = XEN_IOCTL.lock().unwrap();
+    match g.as_ref() {
+        Some(f) => f(
+            fd.as_raw_fd(),
+            req as u64,
+            arg as *const T as *mut u8,
+            std::mem::size_of::<T>(),
+        ),
+        None => 0,
+    }
+}
